@@ -1,4 +1,5 @@
 //! C02: XZ and LZIP containers round-trip; correspondence for the header-level pure functions.
+use crate::codec::reference as lref;
 use crate::codec::*;
 use crate::util::*;
 use lzma_rust2::verif_hooks as hooks;
@@ -121,8 +122,53 @@ pub fn gen_size(rng: &mut Rng, dict: u32, max: usize) -> usize {
     s.min(max)
 }
 
+/// XZ files with many blocks (the record count of the index needs a 2-byte varint from 128 on, and
+/// the index length runs through every residue mod 4): own reader, liblzma, and the Lean reader/writer model.
+fn run_many_blocks(rep: &mut Report, rng: &mut Rng, thorough: bool) {
+    let counts: Vec<usize> = if thorough { (120..=140).chain([255, 256, 257]).collect() } else { vec![126, 127, 128, 129, 130, 131] };
+    for (k, n) in counts.into_iter().enumerate() {
+        let mut r = rng.fork();
+        let tail = [0usize, 1, 50, 4095][k % 4];
+        let len = (n - 1) * 4096 + if tail == 0 { 4096 } else { tail };
+        let kind = ["const", "random", "text"][k % 3];
+        let data = gen_data(&mut r, kind, len);
+        let lz = LzOpts { dict: 4096, lc: 3, lp: 0, pb: 2, normal: false, nice: 32, bt4: false, depth: 0, preset: None };
+        let o = XzOpts { lz, check: [1u8, 4, 10, 0][k % 4], block: Some(4096), filters: vec![] };
+        let detail = || json!({"format": "xz", "stratum": "many-blocks", "blocks": n, "opts": o.json(), "data_kind": kind, "data_len": data.len()});
+        rep.count("stratum.many-blocks");
+        match xz_compress(&data, &o, &[data.len()], 0) {
+            Outcome::Ok(c) => {
+                match xz_decompress(&c, false, &[65536], data.len() + 16) {
+                    Outcome::Ok((out, used)) => {
+                        if out != data {
+                            rep.fail("xz-roundtrip-mismatch:many-blocks", "XZ round trip returned different bytes", detail());
+                        } else if used != c.len() {
+                            rep.fail("xz-roundtrip-consumed", "XZ reader did not consume the whole file it wrote", detail());
+                        } else if kind == "const" || thorough {
+                            rep.model(format!("xz.dec multi=0 in={} cap={} reenc=1", hex(&c), data.len() + 16), format!("ok {} {} {} 1", data.len(), fnv(&data), c.len()));
+                        }
+                    }
+                    other => rep.fail(
+                        &format!("xz-roundtrip-{}:many-blocks", other.class()),
+                        &format!("XZ own reader fails on own {n}-block output: {}", other.describe()),
+                        detail(),
+                    ),
+                }
+                match lref::xz_decode(&c, data.len() + 64) {
+                    Ok(out) if out == data => {}
+                    Ok(_) => rep.fail("ref-xz-different-data:many-blocks", "liblzma decodes our many-block .xz to different data", detail()),
+                    Err(e) => rep.fail("ref-xz-rejects:many-blocks", &format!("liblzma rejects our {n}-block .xz: {e}"), detail()),
+                }
+            }
+            other => rep.fail(&format!("xz-write-{}", other.class()), &format!("XZ writer failed: {}", other.describe()), detail()),
+        }
+        rep.case(format!("xz:many-blocks:{n}:{kind}:{tail}"), true, || detail());
+    }
+}
+
 pub fn run(rep: &mut Report, rng: &mut Rng, thorough: bool) {
     model_stream(rep, &mut rng.fork(), thorough);
+    run_many_blocks(rep, &mut rng.fork(), thorough);
     let cases = if thorough { 3000 } else { 220 };
     let max = if thorough { 4 << 20 } else { 200 << 10 };
     let model_max = if thorough { 400_000 } else { 50_000 };
